@@ -71,6 +71,18 @@ def deep_shapes():
     for k in range(5):
         full = (full, full)
     out.append(full)
+    # SCALE: much deeper chains and zigzags (hundreds of nodes) and the full tree of depth 8 (511 nodes)
+    for d in (40, 120):
+        lc = rc = zz = (None, None)
+        for k in range(d):
+            lc = (lc, None)
+            rc = (None, rc)
+            zz = (zz, (None, None)) if k % 2 == 0 else ((None, None), zz)
+        out += [lc, rc, zz]
+    full = (None, None)
+    for k in range(8):
+        full = (full, full)
+    out.append(full)
     return out
 
 
